@@ -50,6 +50,7 @@ type PfcpServer struct {
 	rcvCh        chan ReceivePacket
 	srCh         chan report.SessReport
 	trToCh       chan TransactionTimeout
+	done         chan struct{} // closed when the main loop has stopped
 	conn         *net.UDPConn
 	recoveryTime time.Time
 	driver       forwarder.Driver
@@ -70,6 +71,7 @@ func NewPfcpServer(cfg *factory.Config, driver forwarder.Driver) *PfcpServer {
 		rcvCh:        make(chan ReceivePacket, RECEIVE_CHANNEL_LEN),
 		srCh:         make(chan report.SessReport, REPORT_CHANNEL_LEN),
 		trToCh:       make(chan TransactionTimeout, TRANS_TIMEOUT_CHANNEL_LEN),
+		done:         make(chan struct{}),
 		recoveryTime: time.Now(),
 		driver:       driver,
 		rnodes:       make(map[string]*RemoteNode),
@@ -88,9 +90,13 @@ func (s *PfcpServer) main(wg *sync.WaitGroup) {
 
 		s.log.Infoln("pfcp server stopped")
 		s.stopTrTimers()
+		// Report producers and timer callbacks may still be running: srCh and trToCh
+		// are not closed (a send on a closed channel panics); closing done releases
+		// every sender instead.
+		if s.done != nil {
+			close(s.done)
+		}
 		close(s.rcvCh)
-		close(s.srCh)
-		close(s.trToCh)
 		wg.Done()
 	}()
 
@@ -259,11 +265,18 @@ func (s *PfcpServer) UpdateNodeID(n *RemoteNode, newId string) {
 }
 
 func (s *PfcpServer) NotifySessReport(sr report.SessReport) {
-	s.srCh <- sr
+	select {
+	case s.srCh <- sr:
+	case <-s.done:
+		// server stopped; nobody is left to serve the report
+	}
 }
 
 func (s *PfcpServer) NotifyTransTimeout(trType TransType, trID string) {
-	s.trToCh <- TransactionTimeout{TrType: trType, TrID: trID}
+	select {
+	case s.trToCh <- TransactionTimeout{TrType: trType, TrID: trID}:
+	case <-s.done:
+	}
 }
 
 func (s *PfcpServer) PopBufPkt(seid uint64, pdrid uint16) ([]byte, bool) {
